@@ -132,7 +132,7 @@ func NewRTUClient() *Client {
 // NewRTUClientWithConfig creates new instance of Modbus Client for Modbus RTU protocol with given configuration options
 func NewRTUClientWithConfig(conf ClientConfig) *Client {
 	client := defaultClient(conf)
-	client.asProtocolErrorFunc = packet.AsRTUErrorPacket
+	client.asProtocolErrorFunc = packet.AsRTUErrorPacketWithCRC
 	client.parseResponseFunc = packet.ParseRTUResponseWithCRC
 	return client
 }
